@@ -141,6 +141,7 @@ var imports = map[string][]importSpec{
 		{"C01", `^C01\.c$`, kBothPaths, "a telegram waiting for the application must not be overwritten by the next datagram"},
 	},
 	"C20": {
+		{"C16", `^C16\.T4$`, `waits for nobody|closes the connection`, "both calls release their socket and return by the timeout: the deferred Close closes the connection and waits for nobody"},
 		{"C01", `^C01\.e$`, `UnpackHeader accepts exactly`, "only well-formed frames are surfaced: a frame with a foreign header length or protocol version is dropped"},
 		{"C16", `^C16\.T5$`, `HostInfoFromAddress`, "the description request advertises the socket's own endpoint: address and port are those of the socket"},
 		{"C02", `^C02\.layout$`, `knxnet\.(SearchRes|DescriptionRes|DeviceInformationBlock|HostInfo|ServiceFamily)`, "the returned responses carry what the server sent"},
